@@ -375,10 +375,10 @@ class Plan:
         return self.rng.choice(self.oneshot)
 
     def pick_lzma(self, e, n, out_n, cap):
-        # BCJ-filtered blocks only survive a single call; an LZMA2 stream of incompressible data starts with an
-        # uncompressed chunk (no "$short workbuf" before the first suspension): both are driven one-shot only
+        # an LZMA2 stream of incompressible data starts with an uncompressed chunk (no "$short workbuf" before the
+        # first suspension): driven one-shot only.  (BCJ-filtered blocks were too, until the repair 9a5020d.)
         raw_start = e.get("class") in ("one", "random", "empty")
-        if raw_start or has_bcj(e):
+        if raw_start:
             return self.rng.choice(self.oneshot)
         for _ in range(40):
             base = self.rng.choice(self.classes)
